@@ -2,7 +2,7 @@
    Every theorem is closed by [exact <lemma>] and followed by Print Assumptions. *)
 From Coq Require Import QArith Lqa Permutation SetoidList.
 From MV Require Import Lib.ListX C20.AstarModel C20.AstarProofs C20.HeapProofs
-  C20.GeomModel C20.GeomProofs C20.PolyProofs C20.CentroidProofs C20.NavModel C20.NavProofs.
+  C20.GeomModel C20.GeomProofs C20.PolyProofs C20.CentroidProofs C20.NavModel C20.NavProofs C20.Assembled.
 
 (* ============================================================ A* (toolkit/navigate/astar) ===== *)
 (* [find g start goal] is the model of astar.Find over the container/heap model; a graph g gives
@@ -36,7 +36,7 @@ Print Assumptions C20_astar_none_iff_unreachable.
 Theorem C20_astar_terminates : forall (g : graph) (start goal : nat),
   finite_graph g -> In start (nodes g) ->
   find g start goal <> OOutOfFuel /\ find g start goal <> OBad.
-Proof. intros g s t Hf Hs. split; [exact (find_terminates g s t Hf Hs)|exact (find_not_bad g s t)]. Qed.
+Proof. exact astar_terminates_assembled. Qed.
 Print Assumptions C20_astar_terminates.
 
 (* The cost found does not depend on how the queue breaks ties: the search over the container/heap model
@@ -54,10 +54,7 @@ Theorem C20_heap_is_a_priority_queue : forall (h : list item),
   (forall x h', heap_pop h = Some (x, h') ->
      heap_ok h' /\ Permutation h (x :: h') /\ forall y, In y h -> (iprio x <= iprio y)%Z) /\
   (heap_pop h = None -> h = []).
-Proof.
-  intros h Hok. split; [intros x; exact (heap_push_ok x h Hok)|].
-  split; [intros x h' H; exact (heap_pop_ok h x h' Hok H)|exact (heap_pop_none h)].
-Qed.
+Proof. exact heap_is_a_priority_queue_assembled. Qed.
 Print Assumptions C20_heap_is_a_priority_queue.
 
 (* non-vacuity: a diamond with two cheapest routes and a consistent heuristic; an unreachable goal; start = goal *)
@@ -89,7 +86,7 @@ Print Assumptions C20_closest_on_segment_and_minimal.
    closest point: for (1,3) and the segment (0,0)-(4,0) it yields (4,0), and (1,0) is closer. *)
 Theorem C20_closest_point_as_written_refuted : exists (s : seg) (p : pt) (t : Q),
   0 <= t /\ t <= 1 /\ dist2 p (seg_at s t) < dist2 p (closest_point_as_written s p).
-Proof. exists ((0, 0), (4, 0)), (1, 3), (1 # 4). vm_compute. repeat split; intros; discriminate. Qed.
+Proof. exact closest_point_as_written_refuted_assembled. Qed.
 Print Assumptions C20_closest_point_as_written_refuted.
 
 (* IsPointOnSegment (exact form of "d1 + d2 = length and inside the bounding box") holds exactly for the
@@ -110,20 +107,14 @@ Theorem C20_centroid_symmetric :
      (~ area2 (sym_polygon c vs) == 0 -> pt_eq (polygon_centroid (sym_polygon c vs)) c)) /\
   (forall a b c : pt, ~ area2 [a; b; c] == 0 ->
      pt_eq (polygon_centroid [a; b; c]) ((px a + px b + px c) / 3, (py a + py b + py c) / 3)).
-Proof.
-  split; [|exact polygon_centroid_triangle].
-  intros c vs Hne. destruct (vertex_centroids_sym_polygon c vs Hne) as [H1 H2].
-  split; [exact H1|]. split; [exact H2|exact (polygon_centroid_symmetric c vs Hne)].
-Qed.
+Proof. exact centroid_symmetric_assembled. Qed.
 Print Assumptions C20_centroid_symmetric.
 
 (* CalcRectangleVerticesCentroid as written returns (x, x): the rectangle (0,2)-(2,4), symmetric about (1,3),
    gets (1,1). *)
 Theorem C20_rect_centroid_as_written_refuted : exists (c : pt) (vs : list pt),
   vs <> [] /\ ~ pt_eq (rect_centroid_as_written (sym_polygon c vs)) c.
-Proof.
-  exists (1, 3), [(-1, -1); (1, -1)]. split; [discriminate|]. intros [_ H]. vm_compute in H. discriminate.
-Qed.
+Proof. exact rect_centroid_as_written_refuted_assembled. Qed.
 Print Assumptions C20_rect_centroid_as_written_refuted.
 
 (* CalcLineSegmentOverlap (REPAIRED index, fixes/C20-segment-overlap.patch), geometrically: when a segment
@@ -140,16 +131,13 @@ Theorem C20_collinear_overlap_iff : forall (l1 l2 : seg),
   (overlap l1 l2 = None ->
      forall x y, on_seg l1 x -> on_seg l2 x -> on_seg l1 y -> on_seg l2 y -> pt_eq x y) /\
   seg_opt_eq (overlap l1 l2) (overlap_spec l1 l2).
-Proof.
-  intros l1 l2. destruct (overlap_geometric l1 l2) as [H1 H2].
-  split; [exact H1|]. split; [exact H2|exact (overlap_matches_spec l1 l2)].
-Qed.
+Proof. exact collinear_overlap_iff_assembled. Qed.
 Print Assumptions C20_collinear_overlap_iff.
 
 (* As written (the two middle end points are compared) a contained segment is reported as no overlap. *)
 Theorem C20_collinear_overlap_as_written_refuted : exists (l1 l2 : seg),
   ~ seg_opt_eq (overlap_as_written l1 l2) (overlap_spec l1 l2).
-Proof. exists ((0, 0), (10, 0)), ((2, 0), (5, 0)). vm_compute. tauto. Qed.
+Proof. exact collinear_overlap_as_written_refuted_assembled. Qed.
 Print Assumptions C20_collinear_overlap_as_written_refuted.
 
 (* Point-in-polygon by ray casting (IsPointInside) agrees with the definition by orientation tests for every
@@ -178,9 +166,7 @@ Theorem C20_point_in_triangle_or_rectangle :
   (forall x0 y0 x1 y1 x y : Q, x0 < x1 -> y0 < y1 ->
      (x0 < x -> x < x1 -> y0 < y -> y < y1 -> point_inside [(x0, y0); (x1, y0); (x1, y1); (x0, y1)] (x, y) = true) /\
      (x < x0 \/ x1 < x \/ y < y0 \/ y1 < y -> point_inside [(x0, y0); (x1, y0); (x1, y1); (x0, y1)] (x, y) = false)).
-Proof.
-  split; [exact point_in_triangle_ccw|]. split; [exact point_in_triangle_cw|exact point_in_rectangle].
-Qed.
+Proof. exact point_in_triangle_or_rectangle_assembled. Qed.
 Print Assumptions C20_point_in_triangle_or_rectangle.
 
 (* non-vacuity: a pentagon satisfying the hypotheses, a point strictly inside, a point outside *)
@@ -206,10 +192,7 @@ Theorem C20_circle_relations : forall (c1 c2 : circle),
      (circle_intersect c1 c2 = true <-> exists p, in_disk c1 p /\ in_disk c2 p)) /\
   (0 < cradius c1 -> 0 < cradius c2 ->
      (circle_overlap c1 c2 = true <-> exists p, in_open_disk c1 p /\ in_open_disk c2 p)).
-Proof.
-  intros c1 c2. split; [intros p; exact (circle_contains_iff c1 p)|].
-  split; [exact (circle_intersect_iff c1 c2)|exact (circle_overlap_iff c1 c2)].
-Qed.
+Proof. exact circle_relations_assembled. Qed.
 Print Assumptions C20_circle_relations.
 
 (* non-vacuity *)
